@@ -146,6 +146,7 @@ func replay(b *behaviour, e *env, variant int) (key, detail string, at int, obs 
 		return "infra", err.Error(), 0, nil
 	}
 	defer sub.Close()
+	defer e.proxy.DropClients() // runs before sub.Close
 	evCh, cancelEv := sub.OnSyncFinished()
 	defer cancelEv()
 	pi := peer.AddrInfo{ID: e.pub.ID, Addrs: []multiaddr.Multiaddr{e.proxy.Addr()}}
